@@ -811,6 +811,11 @@ func (c *Ctx) recursionShapes(rule string) map[*ssa.Function]string {
 		for _, f := range core.WithAnon(h) {
 			add(f, "structural descent over finite data")
 		}
+		if w := c.hashWriter(h); w != h {
+			for _, f := range core.WithAnon(outermost(w)) {
+				add(f, "structural descent over finite data")
+			}
+		}
 	}
 	add(c.nameSetFn(rule), "descent over the embedded fields of two fixed wrapper types")
 	// exported API (stable names)
